@@ -69,6 +69,12 @@ func buildCell(w Win, dating string, classes []class, seriesDay, tagDay dayFn) (
 	for _, it := range c.Samples {
 		spl = append(spl, []chsim.Value{fpOf(it), it.Ts, float64(it.Idx + 1), "line " + it.Marker + " k=v n=1", it.Type})
 		ts = append(ts, []chsim.Value{chsim.Date(seriesDay(it.Ts)), fpOf(it), chsim.LabelsJSON(labelsOf(it)), "", it.Type})
+		if it.Extra != 0 {
+			spl = append(spl, []chsim.Value{fpOf(it), it.Extra, float64(it.Idx + 1), "line " + it.Marker + " k=v n=1", it.Type})
+			if seriesDay(it.Extra) != seriesDay(it.Ts) {
+				ts = append(ts, []chsim.Value{chsim.Date(seriesDay(it.Extra)), fpOf(it), chsim.LabelsJSON(labelsOf(it)), "", it.Type})
+			}
+		}
 	}
 	db.AddQrynTable("samples_v3", spl)
 	db.AddQrynTable("time_series", ts)
@@ -224,6 +230,28 @@ func findMarker(v chsim.Value) string {
 		}
 	}
 	return ""
+}
+
+// RowTs is the timestamp of a scanned data-table row: the row's own timestamp_ns where the table stores raw data
+// (an item may own several rows), the item's timestamp otherwise (metrics_15s rows carry their bucket start).
+func (c *Cell) RowTs(table string, row int, it *Item) int64 {
+	base := baseName(table)
+	if base == "metrics_15s" {
+		return it.Ts
+	}
+	t := c.DB.Table(base)
+	if t == nil || row >= len(t.Rows) {
+		return it.Ts
+	}
+	if k := colIndex(t, "timestamp_ns"); k >= 0 {
+		switch v := t.Rows[row][k].(type) {
+		case int64:
+			return v
+		case uint64:
+			return int64(v)
+		}
+	}
+	return it.Ts
 }
 
 // ItemOfRow returns the item a scanned row belongs to (nil: none).
